@@ -163,6 +163,7 @@ NEEDS = {
  "C06i-prefixed-uses-skips-scopes": ("C06", ["C06"], "a uses statement that names a grouping defined in an enclosing container with the module's own prefix"),
  "C13i-dotted-name-taken-for-file": ("C13", ["C13"], "a module whose name contains a dot, fetched from the search path by name"),
  "C20i-rune-reencoding-per-write": ("C20", ["C20"], "a Write boundary inside a multi-byte UTF-8 character"),
+ "C14i-enum-name-with-blank-refused": ("C14", ["C14"], "an enum member whose name has a blank in its interior"),
  "C20b-empty-write-clears-partial": ("C20", ["C20"], "zero-length Write in the middle of a line clears the mid-line flag: the next Write gets a prefix inside the line"),
  "C20-early-out-continued-line": ("C20", ["C20"], "short write of 1..len(prefix) bytes on a Write that continues a partial line returns 0 although caller bytes were written"),
 }
